@@ -89,6 +89,54 @@ CHECKS = {
              "serialisability.",
         note="Trusted: as C01. Numeric types outside the stated universe (Decimal, Fraction, numpy) are not generated.",
         design="4 C03"),
+    "C08": dict(
+        technique="Coq proof over an async calculus (every program, every pick sequence) + gated-scheduler "
+                  "correspondence on the real engine under enumerated schedules and the 2x2x2 configurations",
+        text="Model/Async.v: the engine's fork/join/merge logic as programs (Call = await user coroutine, Gather = "
+             "asyncio.gather merged by index, Emit = append to the request's write-only state) with the scheduler "
+             "semantics of the gated driver. Proved for EVERY program and pick sequence, hence for the executor written in "
+             "the calculus: a complete run under any schedule returns the result of the sequential run and emits a "
+             "permutation of its events (errors, invocations); any two schedules agree; every started resolver has "
+             "finished, none is started more often than sequentially; no deadlock (a non-final state always has a "
+             "releasable resolver) and every release strictly decreases the pending count (termination, bounded "
+             "schedules). The check drives the real engine with resolvers blocked on harness futures, enumerates pick "
+             "sequences systematically for small requests (incl. single/double faults) in the default configuration and "
+             "by strategy in the other 7, asserts identical data across all schedules and configurations, no pending "
+             "resolver / live task after execute, no double start, and compares response + started/finished sets with "
+             "run_sched of the model inside Coq; each response is judged by the specification executor. PARTIAL: identical "
+             "data across the 2x2x2 configurations is decided per run, not proved; the asyncio runtime is outside the model.",
+        note="Trusted: as C01 + the gated scheduler driver; asyncio task wake-up order beyond FIFO start, gather internals, "
+             "cancellation, timeouts, thread-pool resolvers are runtime behaviour the model cannot exhibit.",
+        design="4 C08"),
+    "C09": dict(
+        technique="Coq proof over the async calculus (sequential composition is serial under every schedule) + "
+                  "gated-scheduler correspondence on mutation documents with adversarial schedules",
+        text="Proved: under EVERY schedule of the nested resolvers a complete run of `first; then` is a complete run of "
+             "`first` followed by a run of what follows (the whole log of a root field, with the finishes of its entire "
+             "sub-selection, precedes the first start of the next); the chain of root fields continues after a contained "
+             "failure and stops when a root raises (non-null); a mutation operation is executed by that serial chain (the "
+             "operation-type dispatch is part of the model). The check runs mutation documents (several roots, aliases, "
+             "root fragments, nested lists) x failure placements x pick sequences (enumerated + last-started, deepest, "
+             "shallowest-last, random) in 3 configurations on the real engine, checks the start/finish log for seriality "
+             "and response key order, the response against the specification executor, and the run against run_sched.",
+        note="Trusted: as C08.",
+        design="4 C09"),
+    "C15": dict(
+        technique="Coq proof over the async calculus (a top-level fan-out of request programs: every interleaving yields each "
+                  "request's solo response) + interleaved multi-request correspondence on one real engine",
+        text="Requests in flight together are the children of one Gather over request programs; per-request mutable state "
+             "lives inside each program. Proved for every interleaving: each request's response is the response of its "
+             "sequential solo run; a request alone under any schedule has that response; the events of all requests are the "
+             "union of the solo events (no error migrates). The check puts groups of 2-5 requests (same text with other "
+             "variables / operation names / data, other documents, failing, invalid, syntactically broken) in flight on ONE "
+             "engine under a cross-request gated scheduler (round-robin, last/first-issued-first, deepest, random), compares "
+             "every response with the same request alone on a FRESH engine, repeats every request alone afterwards on the "
+             "shared engine, fingerprints the cached DocumentNodes, and compares each in-flight request with run_sched of "
+             "the model on that request alone under the projected schedule. PARTIAL: that the engine shares no other mutable "
+             "state between requests is established by these runs, not by proof.",
+        note="Trusted: as C08; baked schema, parse cache and parsed documents are assumed read-only by the model (checked by "
+             "fingerprint and by the afterwards-runs).",
+        design="4 C15"),
     "C14": dict(
         technique="Coq theorems on the model of Engine.subscribe + event-by-event correspondence on the real engine",
         text="Proved for every finite event sequence of the source: the responses are exactly the map of "
